@@ -54,6 +54,37 @@ fn has_f4_literal(n: &SyntaxNode) -> bool {
     n.children().any(has_f4_literal)
 }
 
+/// F4, the sub-class where the tree changes too: among the White_Space characters directly before a LF
+/// inside a Str/Raw token there is one that is itself a line end of raw text (VT, FF, NEL, LS, PS, or a CR that
+/// is not part of CRLF): post-processing strips it and the literal loses a line.
+fn has_f4n_literal(n: &SyntaxNode) -> bool {
+    if matches!(n.kind(), K::Str | K::Raw) {
+        let t = n.clone().into_text();
+        let cs: Vec<char> = t.chars().collect();
+        for i in 1..cs.len() {
+            if cs[i] != '\n' {
+                continue;
+            }
+            let mut j = i;
+            while j > 0 && cs[j - 1].is_whitespace() && cs[j - 1] != '\n' {
+                j -= 1;
+                let c = cs[j];
+                if matches!(c, '\x0b' | '\x0c' | '\u{85}' | '\u{2028}' | '\u{2029}') || (c == '\r' && j + 1 != i) {
+                    return true;
+                }
+            }
+        }
+        return false;
+    }
+    n.children().any(has_f4n_literal)
+}
+
+/// Number of comments holding the directive, anywhere in the tree (also inside a protected node).
+fn count_directives(n: &SyntaxNode) -> usize {
+    let own = (matches!(n.kind(), K::LineComment | K::BlockComment) && n.text().contains("@typstyle off")) as usize;
+    own + n.children().map(count_directives).sum::<usize>()
+}
+
 /// Exotic line ends (F6 class): any Typst newline other than LF / CRLF somewhere in the source.
 fn has_exotic_newline(s: &str) -> bool {
     let cs: Vec<char> = s.chars().collect();
@@ -221,6 +252,7 @@ pub fn run_with(w: usize, t: usize, reorder: bool, src: &str, given: Option<&str
     f.push(format!("depth={}", obs::depth(root)));
     f.push(format!("exotic={}", has_exotic_newline(src) as u8));
     f.push(format!("f4={}", has_f4_literal(root) as u8));
+    f.push(format!("f4n={}", has_f4n_literal(root) as u8));
     f.push(format!("kfa={}", has_comment_in_equation(root, false) as u8));
     f.push(format!("kfb={}", has_block_comment_near_item(root, false) as u8));
     f.push(format!("kfc={}", has_empty_term(root) as u8));
@@ -298,7 +330,9 @@ pub fn run_with(w: usize, t: usize, reorder: bool, src: &str, given: Option<&str
                         }
                     }
                 }
-                let ok07 = ok07 && a.len() == b.len();
+                // "the directive itself is kept": the output holds as many directive comments as the input
+                // (counted over the whole tree: a directive may end up inside a node another one protects)
+                let ok07 = ok07 && count_directives(root) == count_directives(oroot);
                 f.push(format!("c07={}", ok07 as u8));
                 f.push(format!("c07n={}", a.iter().filter(|x| x.is_some()).count()));
                 if !ok07 {
